@@ -17,22 +17,51 @@
    unpacked by the store keep the raw target of the archive; user-made links are allowed):
    the repaired store never follows a link below the working directory, so every mutation
    happens at the lexical location that was validated.  Inv is preserved by the store. *)
-From Oras Require Import Base.Prelude Model.FileConfine Proofs.FileConfine.
+From Oras Require Import Base.Prelude Model.FileConfine Proofs.FileConfine Proofs.FileConfineTaint.
 
-(* Partial: Inv excludes a working directory pre-populated with hard links to files outside
-   (known finding shared-inode-*, C11_shared_inode_refuted below) and requires the working
-   directory to exist and to be reached through real directories.
-   Every sequence of pushes (named blobs and archives to unpack; any titles, any entries
-   of any type, any link targets, any process cwd) leaves everything outside the working
-   directory untouched and keeps the invariant *)
-Theorem C11_confined_partial :
+(* THE CONFINEMENT THEOREM, full.  taint f is a ghost field of the tree that no operation reads
+   or changes: the inodes that files below the working directory may share with files outside when
+   the store is opened (pre-populated hard links: cp -al, ostree-style checkouts).  Inv asks that
+   the working directory and its ancestors are real directories and that every inode shared
+   between inside and outside is in taint (any tree satisfies this with a suitable taint; with
+   taint = [] it says that nothing is shared).  same_outside: for every location outside the
+   working directory the entry (existence, type, inode, link text), the attributes of
+   directories, and the content / permission bits / times of every file whose inode is not
+   tainted are unchanged.  For every history of pushes (named blobs, archives, failing ones,
+   unnamed content, manifests; any titles, entries, link targets, PreservePermissions, cwd): *)
+Theorem C11_confined :
   forall (wd : path) (pres : bool) (cwd : path) (os : list pushop) (s s' : store) (oks : list bool),
     Inv wd (st_fs s) ->
     pushes cfg_fixed pres wd cwd s os = (s', oks) ->
+    Inv wd (st_fs s') /\ same_outside wd (st_fs s) (st_fs s').
+Proof. exact pushes_keeps. Qed.
+Print Assumptions C11_confined.
+
+(* in terms of the observer's view: it can change only at an outside file whose inode is tainted,
+   and that file stays a file of that inode (this is exactly the known finding shared-inode-*:
+   the only outside effect the repaired store can have, C11_shared_inode_refuted) *)
+Theorem C11_confined_view :
+  forall (wd : path) (pres : bool) (cwd : path) (os : list pushop) (s s' : store) (oks : list bool),
+    Inv wd (st_fs s) ->
+    pushes cfg_fixed pres wd cwd s os = (s', oks) ->
+    forall p, inside wd p = false ->
+      view_at (st_fs s') p = view_at (st_fs s) p \/
+      exists i, lookup (st_fs s) p = Some (NFile i) /\ In i (taint (st_fs s)) /\ lookup (st_fs s') p = Some (NFile i).
+Proof. exact pushes_keeps_view_tainted. Qed.
+Print Assumptions C11_confined_view.
+
+(* the earlier statement (no inode shared between inside and outside): nothing at all changes *)
+Theorem C11_confined_partial :
+  forall (wd : path) (pres : bool) (cwd : path) (os : list pushop) (s s' : store) (oks : list bool),
+    Inv wd (st_fs s) -> taint (st_fs s) = [] ->
+    pushes cfg_fixed pres wd cwd s os = (s', oks) ->
     Inv wd (st_fs s') /\
     (forall p, inside wd p = false -> view_at (st_fs s') p = view_at (st_fs s) p).
-Proof. exact pushes_keeps. Qed.
+Proof. exact pushes_keeps_view. Qed.
 Print Assumptions C11_confined_partial.
+
+Example C11_example_inv_shared_inode : Inv wd0 fs2t.
+Proof. exact inv_fs2t. Qed.
 
 (* the entry of the working directory in its parent is not deleted or replaced either *)
 Theorem C11_working_directory_kept :
@@ -278,8 +307,7 @@ Theorem C11_confined_missing_wd_partial :
   forall (wd : path) (pres : bool) (cwd : path) (os : list pushop) (s s' : store) (oks : list bool),
     PreInv wd (st_fs s) -> Forall (op_ok wd) os ->
     pushes cfg_fixed pres wd cwd s os = (s', oks) ->
-    PreInv wd (st_fs s') /\
-    (forall p, inside wd p = false -> view_at (st_fs s') p = view_at (st_fs s) p).
+    PreInv wd (st_fs s') /\ same_outside wd (st_fs s) (st_fs s').
 Proof. exact pushes_keeps0. Qed.
 Print Assumptions C11_confined_missing_wd_partial.
 
@@ -313,13 +341,58 @@ Theorem C11_confined_missing_wd :
   forall (wd : path) (pres : bool) (cwd : path) (os : list pushop) (s s' : store) (oks : list bool),
     PreInv3 wd (st_fs s) ->
     pushes cfg_fixed pres wd cwd s os = (s', oks) ->
-    PreInv3 wd (st_fs s') /\
-    (forall p, inside wd p = false -> view_at (st_fs s') p = view_at (st_fs s) p).
+    PreInv3 wd (st_fs s') /\ same_outside wd (st_fs s) (st_fs s').
 Proof. exact pushes_keeps3. Qed.
 Print Assumptions C11_confined_missing_wd.
+
+(* ... as the observer's view when no inode is shared *)
+Theorem C11_confined_missing_wd_view :
+  forall (wd : path) (pres : bool) (cwd : path) (os : list pushop) (s s' : store) (oks : list bool),
+    PreInv3 wd (st_fs s) -> taint (st_fs s) = [] ->
+    pushes cfg_fixed pres wd cwd s os = (s', oks) ->
+    PreInv3 wd (st_fs s') /\
+    (forall p, inside wd p = false -> view_at (st_fs s') p = view_at (st_fs s) p).
+Proof. exact pushes_keeps3_view. Qed.
+Print Assumptions C11_confined_missing_wd_view.
 
 Example C11_example_wd_as_file :
   snd (pushes cfg_fixed false wd0 cwd0 (mkStore fs3 [] []) os_wd_as_file) = [true; false; false; false; true] /\
   lookup (st_fs (fst (pushes cfg_fixed false wd0 cwd0 (mkStore fs3 [] []) os_wd_as_file))) wd0 = Some NDir /\
   view_at (st_fs (fst (pushes cfg_fixed false wd0 cwd0 (mkStore fs3 [] []) os_wd_as_file))) [b "victim"] = view_at fs3 [b "victim"].
 Proof. exact wd_as_file_ok. Qed.
+
+(* the hypothesis of C11_confined is satisfiable by every tree whose working directory is reached
+   through real directories (declare all inodes tainted; a smaller taint gives a stronger conclusion) *)
+Theorem C11_inv_any_tree :
+  forall (wd : path) (f : fsys),
+    (forall q r, wd = q ++ r -> q <> [] -> lookup f q = Some NDir) ->
+    (forall p i, lookup f p = Some (NFile i) -> i < nexti f) ->
+    Inv wd (with_taint (seq 0 (nexti f)) f).
+Proof. exact inv_any_tree. Qed.
+Print Assumptions C11_inv_any_tree.
+
+(* the ghost field is never read: the run on a tree with any taint set t is the run on the tree
+   itself (same results, same tree, same book-keeping) with t put back - for every configuration *)
+Theorem C11_taint_never_read :
+  forall (t : list nat) (g : cfg) (pres : bool) (wd cwd : path) (s : store) (os : list pushop),
+    pushes g pres wd cwd (swt t s) os =
+    (swt t (fst (pushes g pres wd cwd s os)), snd (pushes g pres wd cwd s os)).
+Proof. exact pushes_t. Qed.
+Print Assumptions C11_taint_never_read.
+
+(* the full theorem without any ghost and without the no-shared-inode premise: ANY tree in which
+   the working directory is reached through real directories (inode numbers below the counter),
+   any number of pushes of any kind, from any process cwd: what an observer sees at a location
+   outside the working directory changes only if it is a file one of whose other names lay below
+   the working directory when the store was opened - and then it is still that file *)
+Theorem C11_confined_any_tree :
+  forall (wd : path) (pres : bool) (cwd : path) (os : list pushop) (s s' : store) (oks : list bool),
+    (forall q r, wd = q ++ r -> q <> [] -> lookup (st_fs s) q = Some NDir) ->
+    (forall p i, lookup (st_fs s) p = Some (NFile i) -> i < nexti (st_fs s)) ->
+    pushes cfg_fixed pres wd cwd s os = (s', oks) ->
+    forall p, inside wd p = false ->
+      view_at (st_fs s') p = view_at (st_fs s) p \/
+      exists i q, lookup (st_fs s) p = Some (NFile i) /\ lookup (st_fs s') p = Some (NFile i) /\
+                  inside wd q = true /\ lookup (st_fs s) q = Some (NFile i).
+Proof. exact pushes_confined_any_tree. Qed.
+Print Assumptions C11_confined_any_tree.
